@@ -139,7 +139,8 @@ PROPS['C16'] = Prop(
     thorough=[_rm('counter_cl_t', 0, 0, 5, 2, 'CallbackList', budget_s=1700), _rm('counter_disp_t', 1, 0, 5, 2, 'EventDispatcher', budget_s=1700), _rm('counter_queue_t', 2, 0, 5, 2, 'EventQueue', budget_s=1700),
               _rm('cond_args_cl_t', 0, 1, 5, 2, 'CallbackList', budget_s=1700), _rm('cond_noargs_cl_t', 0, 2, 5, 2, 'CallbackList', budget_s=1700),
               _rm('cond_noargs_disp_t', 1, 2, 5, 2, 'EventDispatcher', budget_s=1700), _rm('cond_args_queue_t', 2, 1, 5, 2, 'EventQueue', budget_s=1700),
-              _rm('counter_hdisp_t', 3, 0, 4, 2, 'HeterEventDispatcher', budget_s=1700), _rm('cond_args_hdisp_t', 3, 1, 4, 2, 'HeterEventDispatcher', budget_s=1700)],
+              _rm('counter_hdisp_t', 3, 0, 4, 2, 'HeterEventDispatcher', budget_s=1700), _rm('cond_args_hdisp_t', 3, 1, 4, 2, 'HeterEventDispatcher', budget_s=1700),
+              BmcRun('counter_wrapper_cbmc', 'counter_kernel.cpp', 'counter_laws.c', unwind=7, bounds='E-bmc cross-check as in the quick tier')],
     outside='more than TT top-level triggers (TT+NB triggers separate n<=1, 2, ..., TT+NB, larger); several wrapped listeners at once; threads',
     assumptions=['Callback type is the default std::function (the removers wrap the listener in their own functor type); engine checks add/sub nsw, so signed overflow of the trigger count is a violation'])
 
@@ -209,7 +210,8 @@ PROPS['C12'] = Prop(
            _fl('filter_plain_before_k2', 7, 2, 'EventDispatcher + MixinList<user mixin without mixinBeforeDispatch, MixinFilter> (targeted configuration of known finding KF-C12-1)', optional_covers=(0, 1, 2, 3, 4, 5, 6, 7)),
            Run('continue_policy', 'filters.cpp', {'TK': 4}, covers=8, optional_covers=(0, 1, 2, 3, 4, 6, 7), bounds='CallbackList<void(uint32_t&)> with canContinueInvoking(a) = a < t: 2..4 listeners adding symbolic increments, symbolic threshold t and argument'),
            Run('conditional_functor', 'filters.cpp', {'TK': 5}, covers=8, optional_covers=(0, 1, 2, 3, 4, 5, 7), bounds='conditionalFunctor with condition (a & mask) == want, mask/want/arguments symbolic, two dispatches'),
-           Run('argument_adapter', 'filters.cpp', {'TK': 6}, covers=8, optional_covers=(0, 1, 2, 3, 4, 5, 6, 7), bounds='argumentAdapter: int64->int32 and uint32->uint16 (symbolic values), Base*->Derived* with Base at a non-zero offset, shared_ptr<Base>->shared_ptr<Derived>')],
+           Run('argument_adapter', 'filters.cpp', {'TK': 6}, covers=8, optional_covers=(0, 1, 2, 3, 4, 5, 6, 7), bounds='argumentAdapter: int64->int32 and uint32->uint16 (symbolic values), Base*->Derived* with Base at a non-zero offset, shared_ptr<Base>->shared_ptr<Derived>'),
+           BmcRun('functor_kernels_cbmc', 'functor_kernel.cpp', 'functor_laws.c', bounds='E-bmc cross-check: the real ConditionalFunctor::operator() and ArgumentAdapter::operator() translated IR->C and decided by CBMC for every 32/64-bit argument, mask and comparand')],
     thorough=[_fl('filter_disp_k5', 0, 5, 'EventDispatcher + MixinFilter', optional_covers=(3, 5, 6, 7), budget_s=1700),
               _fl('filter_queue_k5', 1, 5, 'EventQueue + MixinFilter', ' (direct, or enqueue + process)', optional_covers=(5, 6, 7), budget_s=1700),
               _fl('filter_heter_k4', 2, 4, 'HeterEventDispatcher + MixinHeterFilter', optional_covers=(3, 5, 6, 7), budget_s=1700),
@@ -218,7 +220,8 @@ PROPS['C12'] = Prop(
               _fl('filter_plain_before_k2', 7, 2, 'EventDispatcher + MixinList<user mixin without mixinBeforeDispatch, MixinFilter> (targeted configuration of known finding KF-C12-1)', optional_covers=(0, 1, 2, 3, 4, 5, 6, 7)),
               Run('continue_policy', 'filters.cpp', {'TK': 4}, covers=8, optional_covers=(0, 1, 2, 3, 4, 6, 7), bounds='as quick'),
               Run('conditional_functor', 'filters.cpp', {'TK': 5}, covers=8, optional_covers=(0, 1, 2, 3, 4, 5, 7), bounds='as quick'),
-              Run('argument_adapter', 'filters.cpp', {'TK': 6}, covers=8, optional_covers=(0, 1, 2, 3, 4, 5, 6, 7), bounds='as quick')],
+              Run('argument_adapter', 'filters.cpp', {'TK': 6}, covers=8, optional_covers=(0, 1, 2, 3, 4, 5, 6, 7), bounds='as quick'),
+              BmcRun('functor_kernels_cbmc', 'functor_kernel.cpp', 'functor_laws.c', bounds='E-bmc cross-check as in the quick tier')],
     outside='more than K steps; filters that add/remove filters while running (CallbackList nesting rules, C02); HeterEventQueue + MixinHeterFilter (does not compile in the unmodified library: private PrototypeList alias)',
     assumptions=['filter verdicts and rewrites are fresh symbolic values on every dispatch'])
 
@@ -358,4 +361,4 @@ PROPS['C20'] = Prop(
 PROPS['C20'].note = 'The compiler dimension (g++ vs clang++, unspecified evaluation order) is covered by witness replay on native g++/clang++ builds, not by a solver verdict.'
 
 HOOK_COMMITS = []
-EBMC_PROPS = ['C16', 'C18']
+EBMC_PROPS = ['C12', 'C16', 'C18']
